@@ -405,6 +405,7 @@ func genNGSetupChoice(t *rapid.T) refamf.NGSetupChoice {
 		ExtraGUAMIs:      rapid.IntRange(0, 3).Draw(t, "extra_guamis"),
 		ExtraSlices:      rapid.IntRange(0, 4).Draw(t, "extra_slices"),
 		PLMNsBefore:      rapid.SampledFrom([]int{0, 0, 0, 1, 2, 5}).Draw(t, "plmns_before"),
+		GUAMIOtherPLMN:   rapid.IntRange(0, 3).Draw(t, "guami_other_plmn") == 2,
 		PLMNsAfter:       rapid.SampledFrom([]int{0, 0, 1, 3}).Draw(t, "plmns_after"),
 	}
 }
